@@ -277,6 +277,9 @@ def rnd_desc(rng):
     # the manifest must be listed before severed members were added: rebuild the envelope order
     order = ["suit-authentication-wrapper", "suit-manifest"]
     env = {k: e[k] for k in order}
-    env.update({k: v for k, v in e.items() if k not in order})
+    rest = [k for k in e if k not in order]
+    if rng.random() < 0.5:
+        rng.shuffle(rest)   # the order of the remaining members is free (dependencies before payloads, payloads before severed ...)
+    env.update({k: e[k] for k in rest})
     d["SUIT_Envelope_Tagged"] = env
     return d
